@@ -2,7 +2,7 @@
 From Coq Require Import ZArith Bool Lia SpecFloat.
 From C15 Require Import Model Proofs Proofs2 ProofsFixed FloatModel.
 Open Scope Z_scope.
-Set Default Timeout 20.
+Set Default Timeout 300.
 
 (* ---------------------------------------------------------------- floor division: the C copy is CPython's algorithm *)
 Theorem floordiv_same x y : c_floordiv x y = py_float_floor_div x y.
